@@ -105,6 +105,29 @@ def Heap.get (h : Heap) : Ptr → GoM URL
 def Heap.alloc (h : Heap) (u : URL) : Heap × Ptr :=
   ({ cells := h.cells ++ [u] }, some h.cells.length)
 
+/-- `*p = v` — also any assignment to fields through `p`, which leaves a cell with some other
+value; panics on nil.  Only the cell `p` points to changes. -/
+def Heap.set (h : Heap) : Ptr → URL → GoM Heap
+  | none, _ => .error .nilDeref
+  | some a, v =>
+    if a < h.cells.length then .ok { cells := h.cells.set a v } else .error .nilDeref
+
+/-- What the callers may do to the heap between two calls: store through a pointer, or make
+a new `url.URL`. -/
+inductive Mut where
+  | store (p : Ptr) (v : URL)
+  | new (v : URL)
+  deriving Repr, DecidableEq
+
+/-- A sequence of such steps (fails if a store goes through nil). -/
+def Heap.apply (h : Heap) : List Mut → GoM Heap
+  | [] => .ok h
+  | .store p v :: rest =>
+    match h.set p v with
+    | .ok h' => h'.apply rest
+    | .error e => .error e
+  | .new v :: rest => (h.alloc v).1.apply rest
+
 /-! ### `RedactUserinfo` -/
 
 /-- `RedactUserinfo(u)`: the new heap and the returned pointer. -/
